@@ -13,6 +13,7 @@ irregular = sorted(u["name"] for u in rep["units"] if u["status"] == "irregular"
 
 # documented non-transmitted fields: (type, field, why)
 ALLOW = [
+    ("Consensus_State", "Network", "network parameters are not encoded (struct comment)"),
     ("Rhp3_InstrReadRegistryNoVersion", "Version", "pre-1.5.7 form: version implied (decoder sets 1)"),
     ("Rhp3_InstrUpdateRegistryNoType", "EntryType", "pre-1.5.7 form: entry type implied (decoder sets arbitrary)"),
     ("Types_FileContractRevision.FileContract", "Payout", "a revision cannot change the payout; decoder sets the sentinel"),
@@ -46,6 +47,7 @@ WIRE = [
     ("Consensus_V1StorageProofSupplement", "v1StorageProofSupplement"),
     ("Consensus_V1TransactionSupplement", "v1TransactionSupplement"),
     ("Consensus_V1BlockSupplement", "v1BlockSupplement"),
+    ("Consensus_ElementAccumulator", "elementAccumulator"), ("Consensus_State", "state"),
 ]
 def q(s): return '"' + s + '"'
 out = []
